@@ -3,7 +3,7 @@
 TIER="${1:-quick}"; shift
 IDS="$@"
 [ -z "$IDS" ] && IDS="C01 C02 C03 C04 C05 C06 C07 C08 C09 C10 C11 C12 C13 C14 C15 C16 C17 C18 C19 C20"
-cd /verif
+cd "$(dirname "$0")/.." || exit 2
 for id in $IDS; do
   s=$(date +%s)
   out=$(./check $id --tier $TIER 2>&1); rc=$?
